@@ -82,6 +82,27 @@ static inline int ResMap_remove(ResMap *m, qstr k)
   if (k == g_r) { int r = m->w_present ? 1 : 0; m->w_present = false; return r; }
   return nondet_bool() ? 1 : 0;
 }
+/* value(k): a COPY of the inner map (empty if absent); size(): the witness resource if present plus any number of other
+ * resources (unknown to the witness view, so every count is possible); remove(k) on the outer map drops the whole contact */
+static inline void PresMap_value(ResMap *out, const PresMap *m, qstr k)     /* (result first: lowering convention for class-valued returns) */
+{
+  if (k == g_b) { *out = m->w; if (!m->w_outer) out->w_present = false; return; }
+  out->w_present = nondet_bool(); out->w_value = nondet_qpres();
+}
+static inline int ResMap_size(const ResMap *m)
+{
+  int others = nondet_int();
+  __CPROVER_assume(others >= 0 && others < 1000000);
+  return (m->w_present ? 1 : 0) + others;
+}
+static inline bool ResMap_isEmpty(const ResMap *m) { return ResMap_size(m) == 0; }
+static inline int PresMap_remove(PresMap *m, qstr k)
+{
+  if (k == g_b) { int r = m->w_outer ? 1 : 0; m->w_outer = false; m->w.w_present = false; return r; }
+  return nondet_bool() ? 1 : 0;
+}
+static inline bool PresMap_contains(const PresMap *m, qstr k) { return k == g_b ? m->w_outer : nondet_bool(); }
+static inline bool ResMap_contains(const ResMap *m, qstr k) { return k == g_r ? m->w_present : nondet_bool(); }
 static inline void PresMap_clear(PresMap *m) { m->w_outer = false; m->w.w_present = false; }
 #define PRES_W(self) ((self)->d->presences.w.w_present)
 #define PRES_WV(self) ((self)->d->presences.w.w_value)
